@@ -24,7 +24,7 @@ ASSUMPTIONS = ["reference gate: accept iff exponent vectors equal after erasing 
                "the wildcard; TypeError iff actual dimensionless and declared not; else UnitsError",
                "SymPy dimsys_SI expansion of dimensions; own unit table for derived spellings"]
 N = {"quick": 3200, "thorough": 32000}
-MIN_REACH = {"quick": {"core_calls": 12000, "accept": 1200, "TypeError": 1500, "UnitsError": 3000, "sequence": 500, "vector": 200,
+MIN_REACH = {"quick": {"core_calls": 12000, "accept": 1200, "TypeError": 1500, "UnitsError": 3000, "sequence": 500, "vector": 200, "vector_explicit_dimension_mixed": 40,
                        "output": 500, "output_same": 150, "catalogue_functions": 600, "catalogue_params": 1500, "curvilinear_vector_calls": 600, "foreign_dimension_calls": 300},
              "thorough": {"core_calls": 100000, "catalogue_functions": 600, "catalogue_params": 1500}}
 SHARD_TIMEOUT = {"quick": 600, "thorough": 3000}
@@ -264,6 +264,20 @@ def core_case(r, rec):
                 desc = f"vector n={n} special@{j}"
                 non_any = [a[1] for a in refs if a[0] == "vec"]
                 mixed = len(set(non_any)) > 1
+                if mixed:
+                    # the same components with an explicit dimension= (that of any of the quantities): the gate trusts the
+                    # vector's declared dimension, so a ready-made quantity of another dimension must not get in this way
+                    qidx = [i for i, (c, a) in enumerate(zip(comps, refs)) if a[0] == "vec" and hasattr(c, "dimension")]
+                    if len({refs[i][1] for i in qidx}) < 2:
+                        qidx = []  # a bare number is given the explicit dimension by the constructor: only ready-made quantities count
+                    for i in qidx[:2]:
+                        rec.hit("vector_explicit_dimension_mixed")
+                        try:
+                            QuantityVector(comps, dimension=comps[i].dimension)
+                        except Exception:  # pylint: disable=broad-except
+                            continue
+                        rec.violation("vector-mixed-dimensions-constructed:explicit-dimension", f"QuantityVector({[str(c) for c in comps]}, dimension={comps[i].dimension}) accepted components of different dimensions", case)
+                        return
                 try:
                     obj = QuantityVector(comps)
                     if mixed:
